@@ -411,7 +411,7 @@ type progGen struct {
 	rels     []int
 }
 
-var progAtoms = []*ast.SExpr{ast.NewSymbol("a"), ast.NewSymbol("b"), sym5, sym6, ast.NewInt(1), ast.NewSymbol("s")}
+var progAtoms = []*ast.SExpr{ast.NewSymbol("a"), ast.NewSymbol("b"), sym5, sym6, ast.NewInt(1), ast.NewSymbol("s"), ast.NewSymbol("1"), ast.NewString("a")}
 
 func (pg *progGen) term(depth, nenv int) *PT {
 	r := pg.r
@@ -458,6 +458,9 @@ func (pg *progGen) goal(size, nenv int) *G {
 	}
 	if size >= 4 && r.Intn(8) == 0 {
 		return pg.patternThenBranch(nenv)
+	}
+	if size >= 4 && pg.allowNon && nenv > 0 && r.Intn(8) == 0 {
+		return pg.condAfterChoice(nenv)
 	}
 	k := r.Intn(13)
 	if !pg.allowNon && k >= 11 {
@@ -539,6 +542,36 @@ func (pg *progGen) patternThenBranch(nenv int) *G {
 		body = gFresh(body)
 	}
 	return body
+}
+
+// condAfterChoice: ONE ifte / once goal value applied to the several states a preceding choice produces, with a condition
+// that is delayed (a suspension first) and holds for some of those states only:
+//   fresh x: (x == a1 or x == a2 or ...) , ifte(zzz(cond on x), then, else) , query == (x ...)
+func (pg *progGen) condAfterChoice(nenv int) *G {
+	r := pg.r
+	x := ptB(0)
+	atoms := []*ast.SExpr{pick(r, progAtoms), pick(r, progAtoms), pick(r, progAtoms)}
+	choice := gDisj(gEq(x, ptAtom(atoms[0])), gDisj(gEq(x, ptAtom(atoms[1])), gEq(x, ptAtom(atoms[2]))))
+	var cond *G
+	switch r.Intn(4) {
+	case 0:
+		cond = gZzz(gEq(x, ptAtom(pick(r, atoms))))
+	case 1:
+		cond = gZzz(gDisj(gEq(x, ptAtom(pick(r, atoms))), gEq(x, ptAtom(pick(r, progAtoms)))))
+	case 2:
+		cond = gCall(10, x, ptList(ptAtom(atoms[r.Intn(3)]), ptAtom(pick(r, progAtoms)))) // membero: delayed by its Zzz
+	default:
+		cond = gEq(x, ptAtom(pick(r, atoms))) // immediate (control)
+	}
+	q := ptB(1 + r.Intn(nenv))
+	mark := func(a *ast.SExpr) *G { return gEq(q, ptPair(x, ptPair(ptAtom(a), ptNil()))) }
+	var tested *G
+	if r.Intn(4) == 0 {
+		tested = gConj(gOnce(cond), mark(ast.NewSymbol("s")))
+	} else {
+		tested = gIfte(cond, mark(ast.NewSymbol("a")), mark(ast.NewSymbol("b")))
+	}
+	return gFresh(gConj(choice, tested))
 }
 
 // ---------- reference interpreter (direct oracle): depth-bounded exhaustive search ----------
